@@ -72,9 +72,13 @@ def fixedBytes : List Nat := [0, 13, 10, 35, 48, 49, 50, 51, 52, 53, 54, 55, 56,
 /-- Two sentinels: one terminates every scanning loop, the second is what "one Next() past EOF" reads. -/
 def SentinelsOK : Bool := decide (2 ≤ C19.sentinels)
 
+/-- concatStrings tests for an f-string without variables before it indexes `Vars[0]` (the repair of the
+    finding concat-string-bare-fstring; `false` on the code before it). -/
+def ConcatGuardOK : Bool := C19.concatGuardsBareFString
+
 /-- Side condition on the regenerated facts (decidable). -/
 def FactsOK : Bool :=
-  SentinelsOK &&
+  SentinelsOK && ConcatGuardOK &&
   -- no read looks further than +1, no jump is larger than the triple-quote skip
   (decide (C19.maxLookahead ≤ 1) && decide (C19.maxLookbehind ≤ 1) &&
   decide (C19.maxPosJump ≤ 2) &&
@@ -101,7 +105,12 @@ theorem C19_facts_ok : FactsOK = true := by decide +kernel
 theorem C19_sentinels_ok : 2 ≤ C19.sentinels := by
   have h := C19_facts_ok
   simp only [FactsOK, Bool.and_eq_true] at h
-  simpa [SentinelsOK] using h.1
+  simpa [SentinelsOK] using h.1.1
+
+theorem C19_concat_guard_ok : C19.concatGuardsBareFString = true := by
+  have h := C19_facts_ok
+  simp only [FactsOK, Bool.and_eq_true] at h
+  simpa [ConcatGuardOK] using h.1.2
 
 /-- Length of the real input inside the lexer's buffer (after the newline fix-up, before the sentinels). -/
 def inputEnd (data : Bytes) : Nat := (mkBuffer data).size - C19.sentinels
@@ -183,18 +192,28 @@ def errOf {α : Type} : Except PErr α → Option PErr
   | .ok _ => none
   | .error e => some e
 
-/-- The property fails as stated: a plain string literal followed by an f-string without `{variable}`s makes
-    concatStrings index `rhs.FString.Vars[0]` of an empty slice — a Go runtime error, reported without a
-    position (src/parse/asp/grammar_parse.go:453).  Replayed on the real parser by corpus/C19. -/
-theorem C19_witness_concat_runtime :
-    errOf (parseFile "x = \"a\" f\"b\"\n".toUTF8.data) = some (.runtime 0) := by decide +kernel
+/-- The defect that was repaired (finding concat-string-bare-fstring, fixed in /repo): on the code *without*
+    the `len(rhs.FString.Vars) == 0` test, a plain string literal followed by an f-string without
+    `{variable}`s made concatStrings index `Vars[0]` of an empty slice — a Go runtime error without a
+    position — and that was the only way it could fail at that index. -/
+theorem C19_old_concat_runtime_iff (k1 k2 : VKind) :
+    concatKindsWith false k1 k2 = .error (.runtime 0) ↔ k1 = .plain ∧ k2 = .fstr 0 := by
+  cases k1 <;> cases k2 <;> simp [concatKindsWith]
 
-/-- … and that is the only way concatStrings can fail at that index: exactly "plain string, then an
-    f-string (run) without variables". -/
-theorem C19_concat_runtime_iff (k1 k2 : VKind) :
-    concatKinds k1 k2 = .error (.runtime 0) ↔ k1 = .plain ∧ k2 = .fstr 0 := by
-  cases k1 <;> cases k2 <;> simp [concatKinds]
-  all_goals (try split) <;> simp_all
+/-- On the repaired code concatStrings cannot fail on two string values. -/
+theorem C19_concat_total (k1 k2 : VKind) (h1 : k1 ≠ .other) (h2 : k2 ≠ .other) :
+    ∃ r, concatKinds k1 k2 = .ok r ∧ r ≠ .other := by
+  have h := concat_good h1 h2
+  cases hc : concatKinds k1 k2 with
+  | ok r => rw [hc] at h; exact ⟨r, rfl, h⟩
+  | error e =>
+    rw [hc] at h
+    have := C19_concat_guard_ok
+    rw [h.2] at this
+    cases this
+
+-- the former witness now parses (corpus/C19/fixed-concat-string-bare-fstring.ops replays it on the real parser)
+example : errOf (parseFile "x = \"a\" f\"b\"\n".toUTF8.data) = none := by decide +kernel
 
 /-- parse_total.  The fuel `parseFile` hands out (a multiple of the token-level progress measure of the
     lexer at the start) is never exhausted: every call chain of the grammar consumes a token or descends
@@ -230,25 +249,23 @@ theorem C19_parse_in_bounds (data : Bytes) :
       obtain ⟨p, m, hpm, _⟩ := h
       cases hpm
 
-/-- parse_errors_classified (partial with respect to the property: the third alternative is the known
-    defect).  Whatever makes parsing stop is a positioned lexer error inside the input, a positioned parser
-    error (inside the input, or the f-string brace error whose position is computed inside the token), or
-    the concatStrings runtime error of `C19_witness_concat_runtime`. -/
-theorem C19_parse_errors_partial (data : Bytes) (e : PErr) (h : parseFile data = .error e) :
+/-- parse_errors.  Whatever makes parsing stop carries a position: it is a positioned lexer error inside the
+    input, or a positioned parser error (inside the input, or the f-string brace error whose position is
+    computed inside the token).  No runtime error, no unpositioned error, for any byte string. -/
+theorem C19_parse_errors (data : Bytes) (e : PErr) (h : parseFile data = .error e) :
     (∃ pos msg, e = .lex (.fail pos msg) ∧ pos ≤ inputEnd data) ∨
-    (∃ pos kind, e = .fail pos kind ∧ (pos ≤ inputEnd data ∨ kind = .fbrace)) ∨
-    e = .runtime 0 := by
+    (∃ pos kind, e = .fail pos kind ∧ (pos ≤ inputEnd data ∨ kind = .fbrace)) := by
   have hs := parseFile_spec data C19_sentinels_ok
   rw [h] at hs
   cases e with
   | lex le =>
     obtain ⟨p, m, hpm, hp⟩ := hs
     exact Or.inl ⟨p, m, by rw [hpm], hp⟩
-  | fail p k => exact Or.inr (Or.inl ⟨p, k, rfl, hs⟩)
+  | fail p k => exact Or.inr ⟨p, k, rfl, hs⟩
   | runtime s =>
-    have : s = 0 := hs
-    subst this
-    exact Or.inr (Or.inr rfl)
+    have hg : C19.concatGuardsBareFString = false := hs.2
+    rw [C19_concat_guard_ok] at hg
+    cases hg
   | outOfFuel => exact absurd hs (by simp [GoodErr])
 
 -- the neighbouring shapes parse: f-string first, or an f-string with a variable after the plain string
